@@ -30,10 +30,10 @@ def P(pid, streams, oracle, rule, assumptions, examples=0, extra_modules=()):
 
 # (stream, cases quick, cases thorough); oracle = (id, budget quick, budget thorough)
 PROPS = {
-    'C01': P('C01', [('codepair', 10000, 80000), ('lines', 600, 4800), ('inlineops', 7500, 60000), ('link', 10000, 80000), ('entity', 10000, 80000), ('url', 10000, 80000), ('smap', 300, 2400), ('block', 6000, 48000), ('inline', 5000, 40000), ('pipeline', 1500, 12000)], ('C01', 30000, 240000),
+    'C01': P('C01', [('codepair', 10000, 80000), ('lines', 600, 4800), ('inlineops', 7500, 60000), ('link', 10000, 80000), ('entity', 10000, 80000), ('url', 10000, 80000), ('smap', 300, 2400), ('block', 6000, 48000), ('inline', 5000, 40000), ('pipeline', 1500, 12000), ('pipetabs', 1000, 8000)], ('C01', 30000, 240000),
              "oracle: parse->render->xrender under catch_unwind on grammar/spec/mutated/adversarial/malformed documents x configuration sample (subsets, orders, max_nesting); non-trivial = contains a markdown-significant character; distinct by hash of (cfg, source)",
              ["whole-pipeline totality theorem is _partial: mechanism theorems + rule-level correspondence + oracle cover the composition",
-              "hang = wall time beyond 2 s + 1 ms/byte; stack exhaustion is covered by C02"], extra_modules=('InlineTotal', 'BlockTotal', ('DocTotal', r'panic_inline_only|parseDoc_blocks_ok'), ('EmphDepthDoc', r'doc_full_depth_bounded'), 'GenC17', 'GenC02', ('Pipeline', r'parseDoc_panic|renderDoc_panic|doc_render_total|spliceNode_panic|sourceposNode_total'), ('Block', r'progress|tokenize_spec|ruleAt'), ('Inline', r'progress|fuel|contracts'),)),
+              "hang = wall time beyond 2 s + 1 ms/byte; stack exhaustion is covered by C02"], extra_modules=('MemoSafe', 'InlineTotal', 'BlockTotal', ('DocTotal', r'panic_inline_only|parseDoc_blocks_ok'), ('EmphDepthDoc', r'doc_full_depth_bounded'), 'GenC17', 'GenC02', ('Pipeline', r'parseDoc_panic|renderDoc_panic|doc_render_total|spliceNode_panic|sourceposNode_total'), ('Block', r'progress|tokenize_spec|ruleAt'), ('Inline', r'progress|fuel|contracts'),)),
     'C02': P('C02', [('nest', 4500, 36000), ('block', 3000, 24000), ('inline', 2500, 20000), ('pipeline', 1500, 12000)], ('C02', 3000, 20000),
              "oracle: 16 nesting families x sizes up to the budget x max_nesting in {0,1,3,10,100}; recursion gauge (hook) and tree depth compared with 4*max_nesting+16; non-trivial = size >= 150",
              ["actual stack exhaustion is a runtime fact; the model bounds frames and depth, the oracle observes the gauge on a 3 GiB-stack thread"], extra_modules=('EmphDepth', 'EmphDepthDoc', 'C02Doc', 'GenC02',)),
@@ -43,7 +43,7 @@ PROPS = {
     'C04': P('C04', [('link', 15000, 120000), ('inline', 5000, 40000), ('htmldecode', 8000, 64000), ('pipeline', 1500, 12000)], ('C04', 30000, 240000),
              "oracle: scheme spellings (case, named/decimal/hex references, escapes, embedded controls, percent escapes) x 8 syntactic positions; every Link/Image/Autolink url and every rendered href/src is fed to a WHATWG-style scheme extractor",
              ["browser behaviour is modelled by WHATWG URL pre-processing (strip C0/space at the ends, drop TAB/LF/CR) + ASCII-case-insensitive scheme"], extra_modules=('GenC17', ('LinksDoc', r'doc_urls_safe|doc_href|doc_link_render|parseDoc_every_kind|parseBlocks_refs_good|reference_step|tokenize_refs'), ('Inline', r'pipeline|fromPipeline'), 'HtmlDecode')),
-    'C05': P('C05', [('inlineops', 10000, 80000), ('block', 6000, 48000), ('inline', 5000, 40000), ('pipeline', 1500, 12000)], ('C05', 30000, 240000),
+    'C05': P('C05', [('inlineops', 10000, 80000), ('block', 6000, 48000), ('inline', 5000, 40000), ('pipeline', 1500, 12000), ('pipetabs', 1500, 12000)], ('C05', 30000, 240000),
              "oracle: RangesOk on every parsed tree (root covers input, boundaries, nesting, sibling order, text/markup fidelity) for all generators x configurations with the paragraph rule; non-trivial = tree with more than 3 nodes",
              ["whole-tree induction is _partial (Layer 3); covered by the oracle"], extra_modules=('C05Rest', 'C05Inline', 'C05Doc', ('Inline', r'ordered|translate'),)),
     'C06': P('C06', [('block', 6000, 48000), ('lines', 900, 7200)], ('C06', 15000, 120000),
@@ -70,7 +70,7 @@ PROPS = {
     'C13': P('C13', [('refs', 12500, 100000), ('pipeline', 1500, 12000), ('block', 3000, 24000)], ('C13', 20000, 160000),
              "oracle: k definitions (case/whitespace/case-fold variants, in quotes and items, before/after the use) x 4 use forms; expected target = first definition of the same base label",
              ["U+0131 dotless i is additionally identified with i/I by lower-then-upper normalisation (documented, not tested as a non-match)"], extra_modules=(('LinksDoc', r'reference_no_node|first_wins|parseBlocks_refs$|tokenize_refs|reference_step|doc_reference|spliceNode_spec'),)),
-    'C14': P('C14', [('inlineops', 10000, 80000), ('block', 6000, 48000), ('inline', 5000, 40000), ('pipeline', 1500, 12000)], ('C14', 25000, 200000),
+    'C14': P('C14', [('inlineops', 10000, 80000), ('block', 6000, 48000), ('inline', 5000, 40000), ('pipeline', 1500, 12000), ('pipetabs', 1000, 8000)], ('C14', 25000, 200000),
              "oracle: WF on every parsed tree for all generators x configurations containing the paragraph rule",
              [], extra_modules=(('C14Doc', r'doc_inline_leaves|doc_text_nf_nojoin|doc_tree_wf_full|not_wf_without_paraLast|tokenize_tight|parseBlocks_noAdjInl|shape_induction|parseInline_shapes'), ('Pipeline', r'doc_tree_wf|fragmentsJoin_nf|fragmentsJoin_mem|spliceList_kinds|spliceList_wf|spliceList_every|joinNode_wf_aux|joinNode_every|sourceposNode_wf|parseBlocks_wf|tokenize_wf|runChain_para|parseDoc_stages'), ('Block', r'list_shape'), ('Inline', r'no_placeholder|allNF'),)),
     'C15': P('C15', [('smap', 450, 3600), ('pipeline', 1500, 12000)], ('C15', 1500, 12000),
